@@ -367,6 +367,9 @@ func unmarshalDynamic(dec *msgpack.Decoder, path cty.Path) (cty.Value, error) {
 	if err != nil {
 		return cty.DynamicVal, path.NewError(err)
 	}
+	// A type description can include optional attribute annotations, but
+	// the type of a value must never carry them.
+	ty = ty.WithoutOptionalAttributesDeep()
 
 	return unmarshal(dec, ty, path)
 }
